@@ -38,6 +38,52 @@ int main(int argc, char* argv[]) {
                 long a = long(r / 1000000) - 100000, b = long(r % 1000000) - 100000, c = long(v.imag());
                 printf("P %ld %ld %ld %ld %ld %ld %ld\n", N, n1, n2, n3, a, b, c);
             }
+        } else if (cmd == "probeseq") {
+            // probeseq <k> <N1> ... <Nk> <lo> <hi> : fill(N1) ... fill(Nk) on the SAME container, then lookups with the last window
+            int k; ss >> k;
+            std::vector<long> Ns(k);
+            for (int i = 0; i < k; ++i) ss >> Ns[i];
+            long lo, hi; ss >> lo >> hi;
+            Probe p;
+            MatsubaraContainer4<Probe> st;
+            for (int i = 0; i < k; ++i) st.fill(&p, Ns[i]);
+            for (long n1 = lo; n1 <= hi; ++n1) for (long n2 = lo; n2 <= hi; ++n2) for (long n3 = lo; n3 <= hi; ++n3) {
+                ComplexType v = st(n1, n2, n3);
+                long long r = (long long)v.real();
+                long a = long(r / 1000000) - 100000, b = long(r % 1000000) - 100000, c = long(v.imag());
+                if (a != n1 || b != n2 || c != n3) printf("PSBAD %ld %ld %ld %ld %ld %ld\n", n1, n2, n3, a, b, c);
+            }
+            printf("PSDONE %d", k);
+            for (int i = 0; i < k; ++i) printf(" %ld", Ns[i]);
+            printf("\n");
+        } else if (cmd == "vertexseq") {
+            // vertexseq <i> <j> <k> <l> <m> <N1> ... <Nm> <margin>: one Vertex4 object recomputed with the windows in turn; after each
+            // compute, operator() is compared with value() bit for bit over the box [-2N-margin, 2N+margin]^3
+            int i, j, k, l, m; ss >> i >> j >> k >> l >> m;
+            std::vector<long> Ns(m);
+            for (int q = 0; q < m; ++q) ss >> Ns[q];
+            long margin; ss >> margin;
+            TwoParticleGF chi(*ed->S, *ed->H, ed->Ops->getAnnihilationOperator(i), ed->Ops->getAnnihilationOperator(j),
+                              ed->Ops->getCreationOperator(k), ed->Ops->getCreationOperator(l), *ed->rho);
+            chi.prepare(); chi.compute();
+            GreensFunction g13(*ed->S, *ed->H, ed->Ops->getAnnihilationOperator(i), ed->Ops->getCreationOperator(k), *ed->rho);
+            GreensFunction g24(*ed->S, *ed->H, ed->Ops->getAnnihilationOperator(j), ed->Ops->getCreationOperator(l), *ed->rho);
+            GreensFunction g14(*ed->S, *ed->H, ed->Ops->getAnnihilationOperator(i), ed->Ops->getCreationOperator(l), *ed->rho);
+            GreensFunction g23(*ed->S, *ed->H, ed->Ops->getAnnihilationOperator(j), ed->Ops->getCreationOperator(k), *ed->rho);
+            g13.prepare(); g13.compute(); g24.prepare(); g24.compute(); g14.prepare(); g14.compute(); g23.prepare(); g23.compute();
+            Vertex4 gamma(chi, g13, g24, g14, g23);
+            for (int q = 0; q < m; ++q) {
+                gamma.compute(Ns[q]);
+                long lo = -2 * Ns[q] - margin, hi = 2 * Ns[q] + margin, mism = 0, count = 0;
+                for (long n1 = lo; n1 <= hi; ++n1) for (long n2 = lo; n2 <= hi; ++n2) for (long n3 = lo; n3 <= hi; ++n3) {
+                    ComplexType a = gamma(n1, n2, n3), b = gamma.value(n1, n2, n3);
+                    ++count;
+                    if (!(a.real() == b.real() && a.imag() == b.imag())) {
+                        if (++mism == 1) printf("XS %d %ld %ld %ld %ld %s %s\n", q, Ns[q], n1, n2, n3, pv::hexc(a).c_str(), pv::hexc(b).c_str());
+                    }
+                }
+                printf("SS %d %ld %ld %ld\n", q, Ns[q], count, mism);
+            }
         } else if (cmd == "model") {
             pv::Scenario sc;
             pv::read_scenario(std::cin, sc);
